@@ -36,6 +36,11 @@ checks = {
    text=WHOLE + "decided are the detectors strict mode relies on, for every path: the separator check accepts only on ';' consumed, '}'/EOF at peek, peek after a line break, or tolerant mode, and every semicolon-terminated statement parser passes it before returning its node; the block parser never returns at end of input without '}' unless an error is recorded or tolerant mode is on; the prefix dispatcher records an error for a token without entry. The corruption quantifier, the reference-parser filter and error positions are not decided.",
    ref="DESIGN.md §3 C12",
    note="Trusted: go/types, go/ssa; acyclic path enumeration (facts at a loop exit do not depend on the loop body in the analysed functions; a back edge ends a path)."),
+ "C02": dict(
+   technique="table comparison against a frozen ECMAScript precedence-order reference (orderings only); SSA shape rules for the climbing loop and every infix method (associativity); path enumeration of separator accepts and of the loop's statement cuts (restricted productions)",
+   text=WHOLE + "decided are the parser mechanisms that give the ECMAScript tree: all pairwise orderings/ties of binding powers vs the reference; strict comparison in the climbing loop; left-associative operators parse their right operand at their own token's level read before advancing, assignments below their level; every keyword has a consumer and every tested token is producible; the separator check accepts only on the four documented conditions; no return value after a line break and no postfix ++/-- after a line break (the two defects this rule found are repaired by fix: commits), and the loop has no other statement cut. Acceptance of every subset program and full grammar conformance are not decided.",
+   ref="DESIGN.md §3 C02",
+   note="Trusted: the 11-tier reference transcribed from ECMA-262's expression grammar (in rules_tables.go with one comment per tier); go/types, go/ssa."),
 }
 na_pending = "rule set designed in DESIGN.md §3 but not yet armed in xjscheck; not claimed until it is silent on the unchanged tree and shown to fire on seeded variants"
 all_ids = ["C%02d" % i for i in range(1, 17)]
